@@ -72,7 +72,9 @@ def owned_keys(n):
 def event_menu(n, tier):
     # get/set/delete share one code path (_run_cmd); get_many and set_many have their own
     # set_big: a value the (healthy) server refuses with SERVER_ERROR - a per-request error, not a server failure
-    ops = ["get", "get_many", "set_many", "set_big"] + (["set", "delete"] if tier != "quick" else [])
+    # get_garbled: the (healthy) server's reply header is garbled - the reader fails with a ValueError, which is
+    # the server's own fault for that one request: no failure record, and nothing escapes with ignore_exc
+    ops = ["get", "get_many", "set_many", "set_big", "get_garbled"] + (["set", "delete"] if tier != "quick" else [])
     ev = []
     for i in range(n):
         for o in ops:
@@ -197,6 +199,12 @@ class World:
                 res = ("ret", hc.set_many({k1: b"v", k2: b"v"}, noreply=False))
             elif name == "set_big":
                 res = ("ret", hc.set(k3, b"x" * (ITEM_MAX + 1), noreply=False))
+            elif name == "get_garbled":
+                net.force_reply = "bad_size"
+                try:
+                    res = ("ret", hc.get(k1))
+                finally:
+                    net.force_reply = None
         except Exception as e:
             res = ("exc", e)
         events = net.events[ev0:]
@@ -223,6 +231,8 @@ class World:
                 pass  # the failing server's own error
             elif name == "set_big" and isinstance(e, MemcacheServerError) and "too large" in str(e):
                 pass  # the server's own refusal of this one request
+            elif name == "get_garbled" and isinstance(e, ValueError):
+                pass  # the server's own garbled reply
             elif isinstance(e, MemcacheError) and "All servers seem to be down" in str(e):
                 pass
             else:
@@ -273,7 +283,7 @@ class World:
                             f"(contacted: {touched})"))
             elif res[0] != "ret" or (name == "get" and res[1] != b"v") or (name == "set" and res[1] is not True) \
                     or (name == "get_many" and res[1] != {k1: b"v", k2: b"v"}) or (name == "set_many" and res[1] != []):
-                if name not in ("delete", "set_big"):
+                if name not in ("delete", "set_big", "get_garbled"):
                     bad.append(("healthy-owner-wrong-result", f"{desc}: owner never failed, result {res!r}"))
         # M4: while the owner is out of rotation, its keys are served by the servers in rotation
         # (any contacted server must have been in the rotation at the moment the key was routed)
@@ -292,28 +302,37 @@ class World:
                                 f"{target}, but no server was contacted (result {res!r})"))
         return bad
 
-    def recovery_check(self, steady):
+    def recovery_check(self, steady, multi=False):
         """Suffix: all servers healthy, then two dead_timeout periods of traffic - either (steady=False)
         two long pauses each followed by one operation per server, or (steady=True) one operation per
-        server every second.  Afterwards rotation and placement must be the original ones."""
+        server every second; the operations are single-key gets or (multi=True) only multi-key calls,
+        get_many and set_many in turn.  Afterwards rotation and placement must be the original ones."""
         net, hc = self.net, self.hc
         for a in list(net.failing):
             net.failing.pop(a)
         steps = [DT + 1] * 2 if not steady else [1] * (2 * DT + 2)
-        for dt in steps:
+        for step, dt in enumerate(steps):
             net.clock.advance(dt)
             for i in range(self.n):
                 self.ncall += 1
                 net.call = self.ncall
+                k1, k2 = self.keys[i][:2]
                 try:
-                    hc.get(self.keys[i][0])
+                    if not multi:
+                        hc.get(k1)
+                    elif (step + i) % 2:
+                        hc.set_many({k1: b"v", k2: b"v"}, noreply=False)
+                    else:
+                        hc.get_many([k1, k2])
                 except Exception:
                     pass
         rot = sorted(map(str, hc.hasher.nodes))
         bad = []
         how = "one operation per server every second" if steady else "two pauses, each followed by one operation per server"
+        if multi:
+            how += ", multi-key calls only"
         if rot != sorted(self.names):
-            bad.append(("no-recovery" + ("-under-steady-traffic" if steady else ""),
+            bad.append(("no-recovery" + ("-under-steady-traffic" if steady else "") + ("-multi-key" if multi else ""),
                         f"after all servers recovered and two dead_timeout periods of traffic ({how}) the rotation "
                         f"is {rot}, not {sorted(self.names)}"))
         else:
@@ -482,7 +501,8 @@ def _worker(job, chk):
                     troubled += 1
                     chk.outcome((cfg, k))
                 # recovery from every reachable state, under two traffic patterns
-                rec = w.recovery_check(False) + build(cfg, menu, hist + (ei,)).recovery_check(True)
+                rec = w.recovery_check(False) + build(cfg, menu, hist + (ei,)).recovery_check(True) \
+                    + build(cfg, menu, hist + (ei,)).recovery_check(len(hist) % 2 == 0, multi=True)
                 for clause, text in rec:
                     sig = f"{clause}|ignore_exc={ie}|retry_attempts={ra}|{mode}"
                     chk.violation(sig, text + f" [servers={n} retry_attempts={ra} ignore_exc={ie} failure={mode}; history "
@@ -533,5 +553,6 @@ def replay(detail):
         print("   ", menu[e])
     print("    state:", w.canon())
     if detail.get("recovery"):
-        bad = w.recovery_check(False) + build(cfg, menu, hist).recovery_check(True)
+        bad = w.recovery_check(False) + build(cfg, menu, hist).recovery_check(True) \
+            + build(cfg, menu, hist).recovery_check(False, multi=True) + build(cfg, menu, hist).recovery_check(True, multi=True)
     return [t for c, t in bad]
